@@ -379,7 +379,7 @@ def _est_duration_days(part):
     m = re.match(r"^P(?:(\d+)Y)?(?:(\d+)M)?(?:(\d+)D)?(?:T(?:(\d[^HMS]*)H)?"
                  r"(?:(\d[^HMS]*)M)?(?:(\d[^HMS]*)S)?)?$", part)
     if m and m.group(0) != "P":
-        y, mo, d = (int(x) if x else 0 for x in m.group(1, 2, 3))
+        y, mo, d = (min(int(x), 10 ** 15) if x else 0 for x in m.group(1, 2, 3))
         tot = y * 366 + mo * 31 + d
         for g, per_day in ((4, 24.0), (5, 1440.0), (6, 86400.0)):
             if m.group(g):
@@ -390,7 +390,7 @@ def _est_duration_days(part):
         return tot
     m = re.match(r"^P(\d+)W$", part)
     if m:
-        return int(m.group(1)) * 7
+        return min(int(m.group(1)), 10 ** 15) * 7
     m = re.match(r"^P(\d{4})", part)
     if m and part.isascii():
         return (int(m.group(1)) + 1) * 366 + 400   # date-time-like spelling
@@ -420,7 +420,7 @@ def est_recurrence_days(text):
     reps = m.group(1)
     if reps and not reps.isascii():
         return 10 ** 12
-    reps = int(reps) if reps else None
+    reps = min(int(reps), 10 ** 15) if reps else None
     a, b = m.group(2), m.group(3)
     if a.startswith("P") or a.startswith("-P"):
         interval = _est_duration_days(a)
@@ -443,8 +443,9 @@ def valid_duration(d):
         vals = [d.weeks]
     else:
         vals = [d.years, d.months, d.days, d.hours, d.minutes, d.seconds]
-    return all(isinstance(v, (int, float)) and not isinstance(v, bool) and
-               math.isfinite(v) for v in vals)
+    return all(not isinstance(v, bool) and (
+        isinstance(v, int) or (isinstance(v, float) and math.isfinite(v)))
+        for v in vals)
 
 
 def check_fuzz(case):
@@ -565,6 +566,7 @@ def st_fuzz(draw):
     which = draw(st.sampled_from(["timepoint", "duration", "recurrence"]))
     cfg = draw(c07.st_cfg(truncated=(which == "timepoint" and
                                      draw(st.booleans()))))
+    long_run = False
     if draw(st.integers(0, 9)) == 0:
         text = draw(st.text(max_size=40))
     else:
@@ -573,9 +575,10 @@ def st_fuzz(draw):
                 which == "timepoint" or not src["cfg"].get("truncated")):
             cfg = dict(src["cfg"])
         nmut = draw(st.sampled_from([0, 1, 1, 1, 2, 2, 3, 5]))
+        long_run = False
         for _ in range(nmut):
             op = draw(st.sampled_from(["del", "ins", "rep", "dup", "swap",
-                                       "splice", "cut", "uni"]))
+                                       "splice", "cut", "uni", "long"]))
             n = len(text)
             i = draw(st.integers(0, max(n - 1, 0)))
             if op == "del" and n:
@@ -599,12 +602,17 @@ def st_fuzz(draw):
                 text = text[:i] + other[j:]
             elif op == "cut" and n:
                 text = text[:i]
+            elif op == "long" and n:
+                # a very long run of one digit (hundreds of characters)
+                long_run = True
+                text = text[:i] + draw(st.sampled_from("0159")) * draw(
+                    st.sampled_from([40, 310, 330, 400])) + text[i:]
             elif op == "uni" and n:
                 ch = text[i]
                 if ch.isdigit() and ch.isascii():
                     text = text[:i] + chr(draw(st.sampled_from(
                         [0x0660, 0xff10, 0x0966, 0x06f0])) + int(ch)) + text[i + 1:]
-        text = text[:200]
+        text = text[:700 if long_run else 200]
     return {"kind": "fuzz", "mode": mode, "parser": which, "cfg": cfg,
             "text": text}
 
